@@ -15,7 +15,11 @@ Everything here is plain Python ints.  A type is a tuple tree (see verif/gen/c17
   ("sfix", l, r) ("ufix", l, r)           l-r+1 bits; number = two's-complement / unsigned raw * 2**r
   ("carr", T, n) ("sarr", T, n)           element i at bits [i*w(T) +: w(T)]
   ("rec", fields, split)                  field k after fields 0..k-1 (base class fields first)
-  ("trec", fields, W)                     templated record; placeholders ("bvW",) ("uW",) ("sW",) ("trecW", fields)
+  ("trec", fields, W[, split])            templated record (template argument = an int W); placeholders ("bvW",)
+                                          ("uW",) ("sW",) ("trecW", fields); split: the template DECLARATIONS inherit
+                                          from each other (base declaration's fields first)
+  ("ttrec", fields, targs, split)         templated record whose template argument is a tuple of TYPES
+                                          (@std.TemplateArg); placeholder ("tp", i) = i-th type argument
   ("bf", w, fields)                       bit field over a w-bit vector; ("fb", i) | ("fv", hi, lo, kind) |
                                           ("sub", bfnode, offset, slice_form)
   ("ser", T)                              std.Serialized[T]: same bits as T
@@ -40,7 +44,9 @@ def resolve(T, W=None):
     if k == "trecW":
         return ("rec", tuple(resolve(f, W) for f in T[1]), (len(T[1]),))
     if k == "trec":
-        return ("rec", tuple(resolve(f, T[2]) for f in T[1]), (len(T[1]),))
+        return ("rec", tuple(resolve(f, T[2]) for f in T[1]), T[3] if len(T) > 3 else (len(T[1]),))
+    if k == "ttrec":
+        return ("rec", tuple(resolve(T[2][f[1]], W) if f[0] == "tp" else resolve(f, W) for f in T[1]), T[3])
     if k in ("carr", "sarr"):
         return (k, resolve(T[1], W), T[2])
     if k == "rec":
@@ -185,3 +191,22 @@ def bf_write_ranges(T, base=0, path=""):
 def bf_write_expected(inp: int, lo: int, w: int, val: int) -> int:
     mask = ((1 << w) - 1) << lo
     return (inp & ~mask) | ((val << lo) & mask)
+
+
+def record_splits(T):
+    """for a (possibly templated) record node: cumulative field counts of its non-empty proper base classes"""
+    k = T[0]
+    if k == "rec":
+        split = T[2]
+    elif k == "trec":
+        split = T[3] if len(T) > 3 else (len(T[1]),)
+    elif k == "ttrec":
+        split = T[3]
+    else:
+        return []
+    out, acc = [], 0
+    for n in split[:-1]:
+        acc += n
+        if acc > 0 and acc not in out:
+            out.append(acc)
+    return out
